@@ -296,3 +296,31 @@ PROPS["C05"] = dict(
     assumptions=["Box containers are never copied (a Box is a unique owner)", "assignment sources are of the same "
                  "family (sequence <- sequence, map <- map)"],
 )
+
+PROPS["C11"] = dict(
+    harness="c11_iteration.c", level="exploration",
+    technique="runtime definitional oracle: generated trees of iterables and views; forward walk, len, get(i) and "
+              "backward walk of every node compared with a reference computed from the view's definition; ASan on "
+              "every cursor step",
+    level_text="Exploration: complete grids (every container kind at lengths 0..12 with its reverse view; Range "
+               "start/stop in [-6,6] x step in [-3,3]; Slice start/stop in [-8,8] x step in [-3,3] over Array, List, "
+               "Tuple and Range of lengths 0..6 - 60k slices) plus random trees of Array/List/Tuple/Table/Tree/Range "
+               "leaves (lengths 0..40) under Slice, Zip (arity 1-4, unequal lengths), enumerate, Filter and Map "
+               "nested to depth 3.",
+    level_note="References come from the definitions (Slice: positions start,start+step,..<stop, negative step from "
+               "stop-1 down to start; Zip: shortest input; Filter: accepted elements; Map: images). Bounds below "
+               "-len are not pinned to one normalisation (only [0,len] is required). The iteration order of Table "
+               "and Tree is observed, not prescribed (C02/C03 own it).",
+    quick=[("asan", 16, 60)],
+    thorough=[("asan", 16, 6000), ("plain", 16, 20000)],
+    floors={"quick": {"range_grid_points": 1000, "slice_grid_points": 50000, "reverse_views": 30,
+                      "zips_of_unequal_lengths": 20, "compositions_of_depth_2_or_more": 100,
+                      "compositions_of_depth_3": 20, "slices_length_not_divisible_by_step": 50,
+                      "slices_with_negative_step": 50, "empty_iterables": 50, "checked_Filter": 50, "checked_Map": 50,
+                      "checked_enumerate": 20, "repeated_pointer_reproducer_runs": 1}},
+    rule="case = a generated tree of 3-5 leaf iterables and 3-10 views over them (depth <= 3), every node checked "
+         "forwards, backwards, by len and by get; distinct = hash of the node descriptions; non-trivial = contains a "
+         "composition of depth >= 2",
+    assumptions=["views that share iteration state (the same Range, Map or Zip below them) are not walked side by "
+                 "side in one Zip", "Range and Slice parameters stay within +-50"],
+)
